@@ -73,8 +73,7 @@ def run(ctx):
     if f is None:
         ctx.bad("C18/D2", "record_artifacts", "not found (failing closed)")
     else:
-        b = Body(f)
-        ctx.touch_body(b)
+        b = ctx.region(None, policy="private", key=f["key"], ps=True)
         ins = [(i, t) for (i, t) in b.calls_named("std::collections::BTreeMap::insert", "std::collections::HashMap::insert")
                if "VirtualTargetPath" in (t.get("arg_tys") or [""])[0]]
         if not ins:
@@ -94,8 +93,8 @@ def run(ctx):
         walk_loops = []
         for h, lp in loops.items():
             t = b.blocks[h]["term"]
-            calls_in = {callee_name(b.blocks[x]["term"]) for x in lp if b.blocks[x]["term"] and b.blocks[x]["term"]["k"] == "call"}
-            if "runlib::record_artifact" in calls_in or "runlib::dir_entry_to_path" in calls_in:
+            # the loops in which artifacts are recorded: those containing an insertion into the artifact map
+            if any(i in lp for (i, t) in ins):
                 walk_loops.append((h, lp))
         if not walk_loops:
             ctx.bad("C18/D6", "walk loops", "no loop recording artifacts found")
@@ -109,8 +108,7 @@ def run(ctx):
     if f is None:
         ctx.bad("C18/D3", "run_command", "not found (failing closed)")
     else:
-        b = Body(f)
-        ctx.touch_body(b)
+        b = ctx.region(None, policy="private", key=f["key"], ps=True)
         outs = b.calls_named("std::process::Command::output")
         if len(outs) != 1:
             ctx.bad("C18/D3", "process run", "expected one Command::output call, found %d" % len(outs), f["at"])
@@ -189,8 +187,7 @@ def run(ctx):
     if f is None:
         ctx.bad("C18/D4", "calculate_hashes", "not found (failing closed)")
     else:
-        b = Body(f)
-        ctx.touch_body(b)
+        b = ctx.region(None, policy="private", key=f["key"], ps=True)
         reads = b.calls_named("std::io::Read::read")
         ups = b.calls_named("ring::digest::Context::update")
         if len(reads) != 1 or len(ups) != 1:
@@ -208,14 +205,20 @@ def run(ctx):
                 it = l.data[1]
                 p = op_place(it["args"][1])
                 d = b.single_def(p["l"]) if p else None
-                if not (d and d.kind == "assign" and d.node["rv"].get("adt", "").endswith("::Range")):
+                rng = d.node["rv"].get("adt", "") if (d and d.kind == "assign") else ""
+                if rng.endswith("::Range"):
+                    st, en = d.node["rv"]["ops"]
+                    start0 = const_int(b, st) == 0
+                elif rng.endswith("::RangeTo"):
+                    (en,) = d.node["rv"]["ops"]
+                    start0 = True
+                else:
                     okd = False
                     continue
-                st, en = d.node["rv"]["ops"]
                 same_buf = root_ids(b, it["args"][0]) == root_ids(b, rt["args"][1])
                 n_from_read = root_ids(b, en) == frozenset([("call", ri, (OK, F0))])
-                okd = okd and const_int(b, st) == 0 and same_buf and n_from_read
-                detail.append("update(buf[%s..n]) same buffer as read: %s, n = read result: %s" % (const_int(b, st), same_buf, n_from_read))
+                okd = okd and start0 and same_buf and n_from_read
+                detail.append("update(buf[0..n]) starts at 0: %s, same buffer as read: %s, n = read result: %s" % (start0, same_buf, n_from_read))
             ctx.inst("C18/D4", "the bytes hashed are buf[0..n] of the same read", okd, "; ".join(detail), ut["at"])
             # all contexts updated: update's receiver is the element of a loop over values_mut() of the context map
             cl = b.trace(ut["args"][0])
